@@ -1,6 +1,7 @@
 package main
 
 import (
+	"math"
 	"math/rand"
 
 	"github.com/peterstace/simplefeatures/geom"
@@ -136,6 +137,11 @@ func overlayGen(r *rand.Rand, n int, tier string, emit func(Case)) {
 			}
 			c = pairCase(l, a, b, mk)
 			c["op"] = overlayOps[r.Intn(4)]
+			if r.Intn(6) == 0 {
+				c["op"] = "dcel"
+				delete(c, "t")
+				delete(c, "rot")
+			}
 		}
 		emit(c)
 	}
@@ -143,7 +149,49 @@ func overlayGen(r *rand.Rand, n int, tier string, emit func(Case)) {
 
 func overlayOnPanic(c Case) Event {
 	_, gp := mapOf(c)
-	return Event{"op": "union", "a": []*flat{}, "b": []*flat{}, "res": newFlat(), "rtype": "", "rvalid": false, "err": "", "gp": gp}
+	return Event{"kind": "op", "op": "union", "a": []*flat{}, "b": []*flat{}, "res": newFlat(), "rtype": "", "rvalid": false, "err": "", "gp": gp,
+		"dcel": Event{"verts": []Event{}, "edges": []Event{}, "faces": []Event{}}}
+}
+
+func bools(b [2]bool) []bool { return []bool{b[0], b[1]} }
+
+// dcelEvent exports the real overlay structure of (a, b) through the verif hook.  Ordinates are logged as integers
+// (lattice) where they are; other points are logged rounded and the edge is marked as not being on the lattice.
+func dcelEvent(a, b geom.Geometry) Event {
+	d := geom.VerifOverlayDump(a, b)
+	isInt := func(p geom.XY) bool { return p.X == math.Trunc(p.X) && p.Y == math.Trunc(p.Y) && math.Abs(p.X) < 1e6 && math.Abs(p.Y) < 1e6 }
+	pt := func(p geom.XY) []int { return []int{int(math.Round(p.X * 1024)), int(math.Round(p.Y * 1024))} }
+	ipt := func(p geom.XY) []int { return []int{int(p.X), int(p.Y)} }
+	verts, edges, faces := []Event{}, []Event{}, []Event{}
+	for _, v := range d.Vertices {
+		inc := v.Incidents
+		if inc == nil {
+			inc = []int{}
+		}
+		verts = append(verts, Event{"xy": pt(v.XY), "src": bools(v.Src), "inset": bools(v.InSet), "incidents": inc})
+	}
+	for _, e := range d.HalfEdges {
+		lattice := true
+		for _, p := range e.Seq {
+			lattice = lattice && isInt(p)
+		}
+		seq := [][]int{}
+		for _, p := range e.Seq {
+			if lattice && len(e.Seq) == 2 {
+				seq = append(seq, ipt(p))
+			} else {
+				seq = append(seq, pt(p))
+			}
+		}
+		// vertex coordinates are always logged scaled (x1024); for the end point comparison the spec uses seqs
+		edges = append(edges, Event{"origin": e.Origin, "twin": e.Twin, "next": e.Next, "prev": e.Prev, "face": e.Face,
+			"srcedge": bools(e.SrcEdge), "srcface": bools(e.SrcFace), "inset": bools(e.InSet), "seq": seq, "ends": [][]int{pt(e.Seq[0]), pt(e.Seq[len(e.Seq)-1])},
+			"lattice": lattice && len(e.Seq) == 2})
+	}
+	for _, f := range d.Faces {
+		faces = append(faces, Event{"cycle": f.Cycle, "inset": bools(f.InSet)})
+	}
+	return Event{"verts": verts, "edges": edges, "faces": faces}
 }
 
 func overlayExec(c Case) Event {
@@ -172,6 +220,13 @@ func overlayExec(c Case) Event {
 		a0, b0 := mustWKT(c.str("wa")), mustWKT(c.str("wb"))
 		ev["a"], ev["b"], ev["op"] = parts(a0), parts(b0), op
 		a, b := imageOf(a0, f), imageOf(b0, f)
+		if op == "dcel" {
+			// internal state of the pipeline (no map applied: the structure is compared on the lattice itself)
+			ev["kind"], ev["op"] = "dcel", "union"
+			ev["dcel"] = dcelEvent(a0, b0)
+			ev["nt"] = !a0.IsEmpty() && !b0.IsEmpty()
+			return ev
+		}
 		switch op {
 		case "union":
 			res, err = geom.Union(a, b)
